@@ -103,6 +103,14 @@ func runCheck(prop string, thorough bool, repo string, writeExpected bool) int {
 
 	vc.LoadLocalsBaseline(filepath.Join(verifRoot, "locals_baseline.json"))
 	eng, err := vc.Load(repo, pc.Packages, filepath.Join(verifRoot, "prelude"))
+	if eng != nil {
+		var fb []string
+		loadJSON(filepath.Join(verifRoot, "functions_baseline.json"), &fb)
+		eng.FuncBaseline = map[string]bool{}
+		for _, n := range fb {
+			eng.FuncBaseline[n] = true
+		}
+	}
 	replayPath := filepath.Join(outRoot(), "out", "replay", prop+".json")
 	os.MkdirAll(filepath.Dir(replayPath), 0o755)
 	if err != nil {
@@ -184,6 +192,23 @@ func runCheck(prop string, thorough bool, repo string, writeExpected bool) int {
 		}
 		lbb, _ := json.MarshalIndent(lb, "", " ")
 		os.WriteFile(filepath.Join(verifRoot, "locals_baseline.json"), append(lbb, '\n'), 0o644)
+		// the functions that exist in the committed tree (a function that is not in this list is new: see Frame.spliced)
+		var fb []string
+		loadJSON(filepath.Join(verifRoot, "functions_baseline.json"), &fb)
+		seenF := map[string]bool{}
+		for _, n := range fb {
+			seenF[n] = true
+		}
+		for n := range eng.Funcs {
+			seenF[n] = true
+		}
+		fb = fb[:0]
+		for n := range seenF {
+			fb = append(fb, n)
+		}
+		sort.Strings(fb)
+		fbb, _ := json.MarshalIndent(fb, "", " ")
+		os.WriteFile(filepath.Join(verifRoot, "functions_baseline.json"), append(fbb, '\n'), 0o644)
 	}
 
 	knownBy := map[string]KnownFinding{}
